@@ -21,7 +21,7 @@ class Profile:
     def __init__(self, **kw):
         # statement weights
         self.w = dict(var=10, assign=6, print=10, if_=5, while_=3, for_=4, block=2, fn=4, call=4, lam=3, try_=0,
-                      cls=0, fiber=0, map_=0, strop=0, brk=1, cont=1, ret=2, throw=0, itchain=0, imp=0, opassign=3, chain=0,
+                      cls=0, fiber=0, map_=0, strop=0, brk=1, cont=1, ret=2, throw=0, itchain=0, imp=0, opassign=3, chain=0, tryfn=0, scope=0,
                       field=0, setitem=2)
         self.illtyped = 0          # percent of operand slots filled with a value of a random kind
         self.probe = 20            # percent of leaves wrapped in t(k, v) probes
@@ -299,6 +299,11 @@ class Gen:
         body = self.expr(self.r.choice(["num", "str", "bool"]), max(depth - 1, 1))
         if body.startswith("{"):
             body = "(" + body + ")"
+        if self.p.closures and self.r.chance(self.p.closures) and not getattr(self, "safe_only", False):
+            tv = self.visible(lambda v: v.kind == "num", assignable=True)
+            if tv:
+                v = self.r.choice(tv)
+                body = "{ %s = %s + %s; return %s; }" % (v.name, v.name, self.r.choice(["1", "2", "0.5"]), body)
         self.pop_fn()
         return ("|%s| " % ", ".join(params) if n else "|| ") + body
 
@@ -603,6 +608,22 @@ class Gen:
     def s_try_(self, depth):
         from . import feat_exc
         return feat_exc.s_try(self, depth)
+
+    def s_tryfn(self, depth):
+        from . import feat_exc
+        tstack = getattr(self, "try_ctx", [[]])[-1]
+        if tstack or self.fdepth > 1:
+            return self.s_print(depth)
+        return feat_exc.s_tryfn(self, depth)
+
+    def s_scope(self, depth):
+        from . import feat_scope
+        tstack = getattr(self, "try_ctx", [[]])[-1]
+        if tstack:
+            return self.s_print(depth)
+        f = self.r.choice([feat_scope.s_counter, feat_scope.s_closure_vec, feat_scope.s_shared, feat_scope.s_levels,
+                           feat_scope.s_exitpaths, feat_scope.s_shadow])
+        return f(self, depth)
 
     def s_cls(self, depth):
         from . import feat_cls
